@@ -141,4 +141,117 @@ Proof.
   eapply blist_named; eauto. constructor.
 Qed.
 
+(* ---- the same for the general fragment (arguments, declarations and blocks inside bodies) ---- *)
+Lemma bexpr_named2 : forall e, expr2 e = true -> forall Lb U Ls ce U' Ls',
+  bexpr cf Lb e U Ls = Some (ce, U', Ls') -> ups_named U Ls -> ups_named U' Ls'.
+Proof.
+  intros e He. pattern e. revert e He. apply expr2_ind.
+  - intros n Lb U Ls ce U' Ls' H HU. cbn [bexpr] in H. inversion H; subst; exact HU.
+  - intros x Lb U Ls ce U' Ls' H HU. cbn [bexpr] in H.
+    destruct (rvb cf Lb Ls U x) as [[[r U1] Ls1]|] eqn:E; [|discriminate]. inversion H; subst. eapply rvb_named; eauto.
+  - intros a b _ _ IHa IHb Lb U Ls ce U' Ls' H HU. cbn [bexpr] in H.
+    destruct (bexpr cf Lb a U Ls) as [[[ca U1] Ls1]|] eqn:Ea; [|discriminate].
+    destruct (bexpr cf Lb b U1 Ls1) as [[[cb U2] Ls2]|] eqn:Eb; [|discriminate]. inversion H; subst. eauto.
+  - intros f args _ IH Lb U Ls ce U' Ls' H HU. rewrite bexpr_call in H.
+    destruct (rvb cf Lb Ls U f) as [[[r U0] Ls0]|] eqn:E; [|discriminate].
+    destruct (bargs cf Lb args U0 Ls0) as [[[cargs U3] Ls3]|] eqn:Eb; [|discriminate]. inversion H; subst.
+    assert (HU0 : ups_named U0 Ls0) by (eapply rvb_named; eauto).
+    clear H E r. revert U0 Ls0 cargs HU0 Eb. induction IH as [|a t Ha Hr IHr]; intros U0 Ls0 cargs HU0 Eb; cbn [bargs] in Eb.
+    + inversion Eb; subst; exact HU0.
+    + destruct (bexpr cf Lb a U0 Ls0) as [[[ca U1] Ls1]|] eqn:Ea; [|discriminate].
+      destruct (bargs cf Lb t U1 Ls1) as [[[ct U2] Ls2]|] eqn:Et; [|discriminate]. inversion Eb; subst. eauto.
+Qed.
+
+Lemma blist_named_aux : forall b,
+  Forall (fun s => forall Lb d U Ls code Lb' U' Ls', bstmt cf s Lb d U Ls = Some (code, Lb', U', Ls') -> ups_named U Ls -> ups_named U' Ls') b ->
+  forall Lb d U Ls code Lb' U' Ls', blist cf b Lb d U Ls = Some (code, Lb', U', Ls') -> ups_named U Ls -> ups_named U' Ls'.
+Proof.
+  intros b H. induction H as [|a r Ha Hr IH]; intros Lb d U Ls code Lb' U' Ls' E HU; cbn [blist] in E.
+  - inversion E; subst; exact HU.
+  - destruct (bstmt cf a Lb d U Ls) as [[[[ca Lb1] U1] Ls1]|] eqn:Ea; [|discriminate].
+    destruct (blist cf r Lb1 d U1 Ls1) as [[[[cr Lb2] U2] Ls2]|] eqn:Er; [|discriminate]. inversion E; subst.
+    eapply IH; eauto.
+Qed.
+
+Lemma bstmt_named2 : forall s, bstmt2 s = true -> forall Lb d U Ls code Lb' U' Ls',
+  bstmt cf s Lb d U Ls = Some (code, Lb', U', Ls') -> ups_named U Ls -> ups_named U' Ls'.
+Proof.
+  intros s Hs. pattern s. revert s Hs. apply bstmt2_ind.
+  - intros x e He Lb d U Ls code Lb' U' Ls' H HU. cbn [bstmt] in H.
+    destruct (dup_in_scope Lb x d); [discriminate|]. destruct (List.length Lb =? c_locals_max cf); [discriminate|].
+    destruct (bexpr cf _ e U Ls) as [[[ce U1] Ls1]|] eqn:Ee; [|discriminate]. inversion H; subst. eapply bexpr_named2; eauto.
+  - intros x e He Lb d U Ls code Lb' U' Ls' H HU. cbn [bstmt] in H.
+    destruct (rvb cf Lb Ls U x) as [[[r U0] Ls0]|] eqn:E; [|discriminate].
+    destruct (bexpr cf Lb e U0 Ls0) as [[[ce U1] Ls1]|] eqn:Ee; [|discriminate]. inversion H; subst.
+    eapply bexpr_named2; eauto. eapply rvb_named; eauto.
+  - intros e He Lb d U Ls code Lb' U' Ls' H HU. cbn [bstmt] in H.
+    destruct (bexpr cf Lb e U Ls) as [[[ce U1] Ls1]|] eqn:Ee; [|discriminate]. inversion H; subst. eapply bexpr_named2; eauto.
+  - intros e He Lb d U Ls code Lb' U' Ls' H HU. cbn [bstmt] in H.
+    destruct (bexpr cf Lb e U Ls) as [[[ce U1] Ls1]|] eqn:Ee; [|discriminate]. inversion H; subst. eapply bexpr_named2; eauto.
+  - intros e He Lb d U Ls code Lb' U' Ls' H HU. cbn [bstmt] in H.
+    destruct (bexpr cf Lb e U Ls) as [[[ce U1] Ls1]|] eqn:Ee; [|discriminate]. inversion H; subst. eapply bexpr_named2; eauto.
+  - intros b Hb IH Lb d U Ls code Lb' U' Ls' H HU. rewrite bstmt_block in H.
+    destruct (blist cf b Lb (S d) U Ls) as [[[[cb Lb1] U1] Ls1]|] eqn:E; [|discriminate]. cbn zeta in H. inversion H; subst.
+    eapply blist_named_aux; eauto.
+Qed.
+
+Lemma blist_named2 : forall b, forallb bstmt2 b = true -> forall Lb d U Ls code Lb' U' Ls',
+  blist cf b Lb d U Ls = Some (code, Lb', U', Ls') -> ups_named U Ls -> ups_named U' Ls'.
+Proof.
+  induction b as [|a r IH]; intros Hb Lb d U Ls code Lb' U' Ls' H HU; cbn [blist] in H.
+  - inversion H; subst; exact HU.
+  - cbn in Hb. apply andb_prop in Hb as [Ha Hr].
+    destruct (bstmt cf a Lb d U Ls) as [[[[ca Lb1] U1] Ls1]|] eqn:Ea; [|discriminate].
+    destruct (blist cf r Lb1 d U1 Ls1) as [[[[cr Lb2] U2] Ls2]|] eqn:Er; [|discriminate]. inversion H; subst.
+    eapply IH; eauto. eapply bstmt_named2; eauto.
+Qed.
+
+Lemma cbody_named2 : forall ps b Ls code U Ls', forallb bstmt2 b = true -> cbody cf ps b Ls = Some (code, U, Ls') -> ups_named U Ls'.
+Proof.
+  intros ps b Ls code U Ls' Hb H. unfold cbody in H. destruct (bparams cf ps _) as [Lb0|]; [|discriminate].
+  destruct (blist cf b Lb0 1 [] Ls) as [[[[c Lb'] U1] Ls1]|] eqn:E; [|discriminate]. inversion H; subst.
+  eapply blist_named2; eauto. constructor.
+Qed.
+
+Lemma bexpr_script2 : forall e, expr2 e = true -> forall L U,
+  bexpr cf L e U [] = match cexpr2 L e with Some ce => Some (ce, U, []) | None => None end.
+Proof.
+  intros e He. pattern e. revert e He. apply expr2_ind.
+  - reflexivity.
+  - intros x L U. cbn [bexpr cexpr2]. rewrite rvb_script. destruct (rv L x); reflexivity.
+  - intros a b _ _ IHa IHb L U. cbn [bexpr cexpr2]. rewrite IHa. destruct (cexpr2 L a) as [ca|]; [|reflexivity].
+    rewrite IHb. destruct (cexpr2 L b); reflexivity.
+  - intros f args _ IH L U. rewrite bexpr_call, cexpr2_call, rvb_script. destruct (rv L f) as [r|]; [|reflexivity].
+    assert (G : forall U0, bargs cf L args U0 [] = match cargs2 L args with Some c => Some (c, U0, []) | None => None end).
+    { induction IH as [|a t Ha Ht IHt]; intros U0; [reflexivity|]. cbn [bargs cargs2]. rewrite Ha.
+      destruct (cexpr2 L a) as [ca|]; [|reflexivity]. rewrite IHt. destruct (cargs2 L t); reflexivity. }
+    rewrite G. destruct (cargs2 L args); reflexivity.
+Qed.
+
+Lemma rv_uninit : forall x L y r, rv (mkLocal (Some x) None false :: L) y = Some r -> rv L y = Some r.
+Proof.
+  intros x L y r H. unfold rv in *. cbn [resolve_local] in H. unfold name_is in H. cbn [l_name l_depth] in H.
+  destruct (x =? y); [discriminate|exact H].
+Qed.
+
+Lemma cexpr2_uninit2 : forall x e, expr2 e = true -> forall L ce,
+  cexpr2 (mkLocal (Some x) None false :: L) e = Some ce -> cexpr2 L e = Some ce.
+Proof.
+  intros x e He. pattern e. revert e He. apply expr2_ind.
+  - intros n L ce H. exact H.
+  - intros y L ce H. cbn [cexpr2] in *. destruct (rv (mkLocal (Some x) None false :: L) y) as [r|] eqn:E; [|discriminate].
+    now rewrite (rv_uninit _ _ _ _ E).
+  - intros a b _ _ IHa IHb L ce H. cbn [cexpr2] in *.
+    destruct (cexpr2 (mkLocal (Some x) None false :: L) a) as [ca|] eqn:Ea; [|discriminate].
+    destruct (cexpr2 (mkLocal (Some x) None false :: L) b) as [cb|] eqn:Eb; [|discriminate].
+    now rewrite (IHa _ _ Ea), (IHb _ _ Eb).
+  - intros f args _ IH L ce H. rewrite cexpr2_call in *.
+    destruct (rv (mkLocal (Some x) None false :: L) f) as [r|] eqn:E; [|discriminate]. rewrite (rv_uninit _ _ _ _ E).
+    assert (G : forall q, cargs2 (mkLocal (Some x) None false :: L) args = Some q -> cargs2 L args = Some q).
+    { clear H. induction IH as [|a t Ha Ht IHt]; intros q Hq; [exact Hq|]. cbn [cargs2] in *.
+      destruct (cexpr2 (mkLocal (Some x) None false :: L) a) as [ca|] eqn:Ea; [|discriminate]. rewrite (Ha _ _ Ea).
+      destruct (cargs2 (mkLocal (Some x) None false :: L) t) as [ct|] eqn:Et; [|discriminate]. now rewrite (IHt _ eq_refl). }
+    destruct (cargs2 (mkLocal (Some x) None false :: L) args) as [ca|] eqn:Ec; [|discriminate]. now rewrite (G _ eq_refl).
+Qed.
+
 End Aux.
